@@ -221,6 +221,13 @@ def delimiter_scan_rule(ctx, rule):
         if apps and all(v.guard_for(a, lambda t: "isspace" in norm(t) or ".strip()" in norm(t)) is not None for a in apps):
             never_blank.add(b)
     n_cmp = 0
+    # locals holding the stripped text
+    stripped_names = set()
+    for n in walk_no_nested(f.node):
+        if isinstance(n, ast.Assign) and isinstance(n.targets[0], ast.Name) and isinstance(n.value, ast.Call) and \
+                isinstance(n.value.func, ast.Attribute) and n.value.func.attr == "strip" and \
+                isinstance(n.value.func.value, ast.Name) and n.value.func.value.id in buffers:
+            stripped_names.add(n.targets[0].id)
     for n in walk_no_nested(f.node):
         tests = []
         if isinstance(n, ast.Compare) and any(isinstance(o, (ast.Eq, ast.NotEq)) for o in n.ops):
@@ -235,8 +242,9 @@ def delimiter_scan_rule(ctx, rule):
                               "the delimiter scan compares the accumulated text `%s` as written (blanks included) instead "
                               "of its blank-stripped form: an empty tag written with blanks around it (`Red, ,Blue`, "
                               "`( , Red)`) is judged differently from the same text without blanks" % t.id)
-            elif isinstance(t, ast.Call) and isinstance(t.func, ast.Attribute) and t.func.attr == "strip" and \
-                    isinstance(t.func.value, ast.Name) and t.func.value.id in buffers:
+            elif (isinstance(t, ast.Name) and t.id in stripped_names) or (
+                    isinstance(t, ast.Call) and isinstance(t.func, ast.Attribute) and t.func.attr == "strip" and
+                    isinstance(t.func.value, ast.Name) and t.func.value.id in buffers):
                 n_cmp += 1
                 ctx.ok(rule, "scanner decision on `%s` uses the blank-stripped text" % norm(t), loc(f, n))
-    ctx.floor(rule, "scanner decisions on the accumulated text", n_cmp, 2)
+    ctx.floor(rule, "scanner decisions on the accumulated text", n_cmp, 1)
